@@ -9,6 +9,7 @@ import (
 	"math/rand"
 	"os"
 	"os/exec"
+	"path/filepath"
 	"sort"
 	"strings"
 	"sync"
@@ -131,6 +132,52 @@ func steps(n int) []evIn {
 }
 
 func intp(v int) *int { return &v }
+
+// audioOnlyAsset writes a VoD asset with only the audio track of testpic_2s below dir: the AAC track
+// is then the reference representation, its segments (96256/48000 s = 2005.33 ms) are not whole
+// milliseconds.
+const audioOnlyName = "audio_only_2s"
+
+func audioOnlyAsset(dir string) (*lib.TLAsset, error) {
+	src := filepath.Join(lib.TestVodRoot, "testpic_2s", "A48")
+	dst := filepath.Join(dir, audioOnlyName, "A48")
+	if err := os.MkdirAll(dst, 0o755); err != nil {
+		return nil, err
+	}
+	entries, err := os.ReadDir(src)
+	if err != nil {
+		return nil, err
+	}
+	for _, e := range entries {
+		data, err := os.ReadFile(filepath.Join(src, e.Name()))
+		if err != nil {
+			return nil, err
+		}
+		if err := os.WriteFile(filepath.Join(dst, e.Name()), data, 0o644); err != nil {
+			return nil, err
+		}
+	}
+	mpd := `<?xml version="1.0" encoding="utf-8"?>
+<MPD xmlns="urn:mpeg:dash:schema:mpd:2011" profiles="urn:mpeg:dash:profile:isoff-live:2011" maxSegmentDuration="PT2S" minBufferTime="PT2S" type="static" mediaPresentationDuration="PT8S" id="audio">
+   <Period id="one" start="PT0S">
+      <AdaptationSet contentType="audio" id="1" mimeType="audio/mp4" lang="en" segmentAlignment="true" startWithSAP="1">
+         <SegmentTemplate startNumber="1" initialization="$RepresentationID$/init.mp4" duration="2" media="$RepresentationID$/$Number$.m4s"/>
+         <Representation id="A48" codecs="mp4a.40.2" bandwidth="48000" audioSamplingRate="48000"/>
+      </AdaptationSet>
+   </Period>
+</MPD>
+`
+	if err := os.WriteFile(filepath.Join(dir, audioOnlyName, "Manifest.mpd"), []byte(mpd), 0o644); err != nil {
+		return nil, err
+	}
+	vr, trex, err := lib.LoadVodRep(dst, "A48")
+	if err != nil {
+		return nil, err
+	}
+	r := &lib.TLRep{VodRep: vr, Trex: trex, Kind: "audio", Ext: ".m4s"}
+	return &lib.TLAsset{Path: audioOnlyName, MPD: "Manifest.mpd", Reps: []*lib.TLRep{r}, RefTS: vr.Timescale, RefDur: vr.Duration(),
+		LoopMS: 1000 * vr.Duration() / vr.Timescale}, nil
+}
 
 func genSessions(c *lib.Ctx, rng *rand.Rand) []sessIn {
 	var out []sessIn
@@ -310,6 +357,15 @@ func genSessions(c *lib.Ctx, rng *rand.Rand) []sessIn {
 		add(sessIn{Kind: "realtime", Asset: "testpic_2s", MPD: "Manifest.mpd", Cfg: cfgIn{Mode: "number", Snr: -1, Tsbd: -1}, Test: false, AlignMS: 2000, AlignOff: 300, Solo: true,
 			Events: []evIn{{Kind: "wait", WaitMS: 2000}, {Kind: "wait", WaitMS: 2000}, {Kind: "delete"}}})
 	}
+	// 11. an audio-only asset: the reference representation is the AAC track, whose segment ends are not
+	//     whole milliseconds; long enough to cross the loop boundary twice
+	for i, mode := range []string{"number", "tlnr"} {
+		if i >= 1 && !c.Thorough() {
+			break
+		}
+		add(sessIn{Kind: "audio-only", Asset: audioOnlyName, MPD: "Manifest.mpd", VodRoot: filepath.Join(c.Out, "vod_c16"), Solo: true,
+			Cfg: cfgIn{Mode: mode, Snr: -1, Tsbd: -1}, NowMS: 9000 + int64(i)*8000, Test: true, Events: steps(12)})
+	}
 	// 10. successive sessions of the same user to the same receiver host with different passwords
 	//     (a rotated password), and one without credentials: each must carry its own
 	for i, pw := range []string{"first-pw", "second-pw", "", "third-pw"} {
@@ -360,6 +416,11 @@ func runSessions(c *lib.Ctx, terms *[]string) error {
 	for _, a := range assets {
 		byPath[a.Path] = a
 	}
+	ao, err := audioOnlyAsset(filepath.Join(c.Out, "vod_c16"))
+	if err != nil {
+		return err
+	}
+	byPath[ao.Path] = ao
 	rng := rand.New(rand.NewSource(c.Seed*15485863 + 16))
 	sessions := genSessions(c, rng)
 	outs := playAll(c, sessions)
@@ -1016,6 +1077,9 @@ func sessTermDead(id int, s *sessIn, a *lib.TLAsset) string {
 		rs = append(rs, fmt.Sprintf("{| ir_kind := %s; ir_tab := %s |}", kind, coqOptRep(t)))
 	}
 	ref := a.Ref()
+	if ref == nil {
+		return ""
+	}
 	add("RVideo", ref)
 	if a.Rep("A48") != nil && s.MPD == "Manifest.mpd" {
 		add("RAudio", a.Rep("A48"))
@@ -1056,6 +1120,14 @@ func replay(c *lib.Ctx) error {
 		assets, err := lib.LoadBundledAssets(lib.TestVodRoot)
 		if err != nil {
 			return err
+		}
+		if s.VodRoot != "" { // a generated asset: rebuild it for the replay
+			s.VodRoot = filepath.Join(c.Out, "vod_c16")
+			ao, err := audioOnlyAsset(s.VodRoot)
+			if err != nil {
+				return err
+			}
+			assets = append(assets, ao)
 		}
 		s.ID = 0
 		s.Solo = true
